@@ -5,17 +5,18 @@ CONSTANTS
   FetchMax = 2
   HWFallback = FALSE
   ElectAlive = FALSE
-  AllowLag = FALSE
+  AllowLag = TRUE
   ElectDown = TRUE
-  MaxMsgs = 3
+  MaxMsgs = 2
   MaxElect = 2
-  MaxCrash = 2
+  MaxCrash = 1
   MaxIsrOps = 2
   MaxRejects = 0
   Policies = {"ALL"}
   UseCheckpoint = FALSE
   Batch = 1
   IgnoreTaints = FALSE
-INVARIANTS NoBadAck_ExpandLagging
+INVARIANTS Inv_CommittedSurvives Inv_NoDivergence Inv_Nacked Inv_Struct
+PROPERTIES AcksOK HWMono
 VIEW MCView
 CHECK_DEADLOCK FALSE
